@@ -80,7 +80,26 @@ def with_decoys(objects, decoy):
     return out
 
 
-def install(s3mod, pages=None, objects=None, page_size=2, bucket=None, listed=None):
+class FakeBoto:
+    """stands in for the boto3 module inside mosromgr.utils.s3, so that the deferred creation of the handles runs"""
+    def __init__(self, client, resource):
+        self._c, self._r = client, resource
+        self.calls = []
+
+    def client(self, name, *a, **kw):
+        self.calls.append(('client', name))
+        if name != 's3':
+            raise ValueError('unknown service: %r' % (name,))
+        return self._c
+
+    def resource(self, name, *a, **kw):
+        self.calls.append(('resource', name))
+        if name != 's3':
+            raise ValueError('unknown service: %r' % (name,))
+        return self._r
+
+
+def install(s3mod, pages=None, objects=None, page_size=2, bucket=None, listed=None, lazy=False):
     """objects: {key: bytes}; pages default: the keys, page_size per page, with empty pages interleaved"""
     objects = objects or {}
     if pages is None:
@@ -89,5 +108,11 @@ def install(s3mod, pages=None, objects=None, page_size=2, bucket=None, listed=No
         for i in range(0, len(keys), page_size):
             pages.append({'Contents': [{'Key': k} for k in keys[i:i + page_size]]})
             pages.append({})
+    if lazy:
+        # the handles are not there yet: mosromgr creates them on first use, through (a stand-in for) boto3
+        s3mod.s3._client = None
+        s3mod.s3._resource = None
+        s3mod.boto3 = FakeBoto(FakeClient(pages), FakeResource(objects, bucket))
+        return
     s3mod.s3._client = FakeClient(pages)
     s3mod.s3._resource = FakeResource(objects, bucket)
